@@ -198,6 +198,7 @@ type sysRun struct {
 	verbose  bool
 	nq       int
 	lossSeen map[string]bool
+	hullRace bool // the writer of the last batch is parked before onWriteCIndex (deterministic replay of F46)
 }
 
 func (r *sysRun) ask(line string, check func(ans string)) {
@@ -355,6 +356,9 @@ func (r *sysRun) inputWith(extra *op) history {
 }
 
 func (r *sysRun) doWrite(o op, rng *vh.Rng) bool {
+	if r.jrnl != nil && !r.waitIdle() {
+		return false
+	}
 	ts := expand(o.Segs)
 	evs := make([]model.LogEvent, len(ts))
 	for i, t := range ts {
@@ -402,6 +406,11 @@ func (r *sysRun) doWrite(o op, rng *vh.Rng) bool {
 }
 
 func (r *sysRun) doRebuild(o op, rng *vh.Rng) bool {
+	// queries may have left (no-op) rebuild requests with the asynchronous rebuilder: let them finish, a request that
+	// runs in the middle of the forced loop below would rebuild a chunk early and the loop would then drop the new index file
+	if r.jrnl != nil && !r.waitIdle() {
+		return false
+	}
 	cks := r.chunks()
 	if len(cks) == 0 {
 		return true
@@ -640,20 +649,22 @@ func (r *sysRun) doQuery(o op, specOnly bool) {
 			return
 		}
 		finding := ""
-		if kind == "hidden-event" && eq {
+		if kind == "hidden-event" && eq && r.hullRace {
+			// deterministic schedule; the model (journal updated, chunk index not) shows the same loss
+			finding = "F46"
+		} else if kind == "hidden-event" && eq {
 			cls := map[string]bool{}
 			for _, c := range strings.Split(f["cls"], ",") {
 				cls[c] = true
 			}
-			switch {
-			case cls["3"] && f["fix3"] == "1":
+			// a repair set found by the model (only classes whose predicate holds are tried): the loss belongs to its first member
+			switch first := strings.Split(f["fixset"], ",")[0]; {
+			case first == "3" && cls["3"]:
 				finding = "F03"
-			case cls["2"] && f["fix2"] == "1":
+			case first == "2" && cls["2"]:
 				finding = "F02"
-			case cls["2"] && cls["3"] && f["fix23"] == "1":
-				finding = "F03"
-			case cls["41"] && f["fix41"] == "1":
-				finding = "F41"
+			case first == "41" && cls["41"]:
+				finding = "F45"
 			case cls["24"]:
 				finding = "F24"
 			case cls["4"]:
@@ -943,7 +954,7 @@ func equalBoundHistory(rng *vh.Rng) history {
 func sectionSystem(rng *vh.Rng) {
 	sec := res.Section("system", "system-correspondence",
 		"in-process server with MaxChunkSize from {600 … 250000} (20-byte records), histories of writes (batch sizes {1,249,250,251,500,5000}, small random, occasionally > 5001) in timestamp regimes strict / ties (equal runs of 1…1000 across index points and chunk edges) / jitter / stepback / arbitrary, bases near 0, negative, near both int64 extremes; interleaved with forced index rebuilds (synchronous, or one chunk through the asynchronous rebuilder with queries while the other chunks' indexes are missing) and sweeps of RANGE queries whose bounds are drawn from {index points, chunk edges, batch edges, hull values, min, max, 0} ±1, ±10 beyond, absent; every query is read page by page (page sizes 10000/1000/251/97: each page re-creates the cursor from the returned position) through backend.Querier or the RPC client; compared with the filtered unbounded read (SPEC) and with the Lean pipeline model (MODEL), plus chunk hulls and index points after every write/rebuild; non-trivial = the range keeps some but not all events, distinct by (history, bounds, page)")
-	n := 96
+	n := 120
 	if args.Thorough {
 		n = 240
 	}
@@ -1055,6 +1066,7 @@ func main() {
 	sectionSelector(rng.Fork("selector"))
 	sectionCIndex(rng.Fork("cindex"))
 	sectionSystem(rng.Fork("system"))
+	sectionHullRace()
 	if args.Thorough {
 		sectionRace(rng.Fork("race"))
 	}
